@@ -117,7 +117,7 @@ func checkRenderings(base vlib.Conf, rec *vlib.SetRecord, r *vlib.Renderings, la
 			}
 			fl := vlib.Failf(sig, "applying the XML rendering (%s) and the proto rendering to the same device configuration gives different results (xml vs proto):\n  %s\nxml: %s\nproto updates=%s deletes=%s\ndevice before: %s", o, strings.Join(d, "\n  "), raw, vlib.JSON(rec.Updates), vlib.JSON(rec.Deletes), vlib.JSON(base))
 			// keep searching behind the known leaf-list replace finding: count it, skip this comparison only
-			if len(ch.Replaces) > 0 && vlib.GetStats("C10").IsKnown(fl) {
+			if len(ch.Replaces) > 0 && !replayingKnown && vlib.GetStats("C10").IsKnown(fl) {
 				lab["excluded-xml-replace-comparison"] = true
 				continue
 			}
@@ -275,4 +275,12 @@ func keys(m map[string]bool) []string {
 
 func TestProp(t *testing.T)   { prop.Check(t) }
 func TestReplay(t *testing.T) { prop.Replay(t) }
-func TestKnown(t *testing.T)  { prop.Known(t) }
+
+// replayingKnown: the stored case of the known finding must fail the way it is recorded (no skipping)
+var replayingKnown bool
+
+func TestKnown(t *testing.T) {
+	replayingKnown = true
+	defer func() { replayingKnown = false }()
+	prop.Known(t)
+}
